@@ -1,7 +1,9 @@
 //! E1 — schema-directed dynamic serde shape engine (C01, C05, C13, C17).
 mod c01;
+mod c05;
 mod dynamic;
 mod space;
+mod twins;
 mod wire;
 
 use vcommon::{Args, Report};
@@ -11,6 +13,7 @@ fn main() {
     vcommon::quiet_panics();
     let report: Report = match args.property.as_str() {
         "C01" => c01::run(&args),
+        "C05" => c05::run(&args),
         other => panic!("shapes: unknown property {}", other),
     };
     report.write(&args.out);
